@@ -287,8 +287,29 @@ func c06One(env *fw.Env, i int64) {
 	for _, f := range flush {
 		_ = pc.Send(f)
 	}
-	waitFor(10*time.Second, func() bool { return bgPending.Load() == 0 })
 	linkUp := !cs.Drop
+	if linkUp {
+		// quiescence (never a verdict): a starved peer reader may still be working through primaries whose callers have
+		// long timed out, and it answers them (P:/reply frames) as it goes. Wait until it has read every data frame the
+		// library wrote, fence its reader with one barrier (its OnFrame calls are sequential), let delayed replies go out,
+		// and only then fence the LIBRARY's processing of everything the peer wrote with the final barrier.
+		sent := rg.Conn.Metrics()
+		waitFor(20*time.Second, func() bool {
+			n := uint64(0)
+			for _, ev := range pc.Log() {
+				if ev.Frame.IsData() {
+					n++
+				}
+			}
+
+			return n >= sent.DataMsgSendCount()
+		})
+		if _, err := pc.Barrier(15 * time.Second); err != nil {
+			env.Violate("link-dropped", fmt.Sprintf("the link did not survive the history (no fault injected): %v", err), cs)
+			return
+		}
+	}
+	waitFor(10*time.Second, func() bool { return bgPending.Load() == 0 })
 	if linkUp {
 		if _, err := pc.Barrier(15 * time.Second); err != nil {
 			env.Violate("link-dropped", fmt.Sprintf("the link did not survive the history (no fault injected): %v", err), cs)
